@@ -331,14 +331,17 @@ def _shorten(s):
 TRUSTED_COMMON = [
     "CPython + jax.make_jaxpr as the mechanical extractor of the real function's program",
     "vcgen.interp: semantics of the interpreted lax primitives (elementwise by definition, data movement by index tracing with the real primitive)",
-    "kernel contracts (axioms) for qr_r / solve_triu / solve_tril / solve_lu / lstsq_svd / hypot / random.*; validated numerically at the self-check points on every run, not proved",
+    "kernel contracts (axioms) for qr_r / solve_triu / solve_tril / solve_lu / lstsq_svd / hypot / random.*; validated numerically at the self-check points on every run, not proved; linear solves are memoised up to the sign of the right-hand side (solve(A,-b) = -solve(A,b))",
+    "specification-only ghost kernels: ghost_inverse (two-sided inverse; its existence is an inherited precondition), ghost_parent (the kernel output a block was cut from), lstsq row-space witness",
+    "axioms about elementary functions used in SMT queries: sqrt/abs/sign/min/max definitions, guarded reciprocals, sign and monotonicity facts of real powers, 2-ulp enclosures of logarithms of constants, b^e >= r <=> e log b >= log r for constant b > 1, bracketing of ceil/floor (integrality not modelled)",
+    "uninterpreted functions (vector fields, constraints, Taylor-point rules) with uninterpreted Jacobians: instances are treated as independent symbols (no congruence axiom): sound for proofs, counter-models are checked for functional consistency before they are accepted",
     "vcgen.poly / vcgen.cert: exact rational polynomial arithmetic used to *find* certificates (the certificates themselves are re-checked by z3 and cvc5)",
     "z3 5.1 (python wheel) and cvc5 1.0.3 (CLI)",
     "harness glue that builds the symbolic input objects for each shape instance",
 ]
 
 ASSUMPTIONS_COMMON = [
-    "machine arithmetic treated as mathematical: every float is a real number, float literals are taken at their exact binary value; rounding, overflow, NaN/inf propagation are outside the claim",
+    "machine arithmetic treated as mathematical: every float is a real number; float literals within 1e-13 (relative) of a rational with denominator <= 10^6 are read as that rational (constants the code computes in floating point, e.g. factorials and binomial coefficients through exp(lgamma), are idealised), all other literals at their exact binary value; rounding, overflow, NaN/inf propagation are outside the claim",
     "proofs are per shape instance (listed under coverage.shape_instances); within an instance they hold for all real values of every array entry",
     "divisions are by quantities assumed non-zero (listed per function as inherited kernel preconditions or positivity requires)",
 ]
